@@ -138,6 +138,12 @@ def _s_sin(v):
     raise Unsupported("sin of a symbolic number that is not an angle")
 
 
+def _s_tan(v):
+    if isinstance(v, SAngle):
+        return SNum(v.s) / SNum(v.c)
+    raise Unsupported("tan of a symbolic number that is not an angle")
+
+
 def _s_abs(v):
     if isinstance(v, SAngle):
         return abs(v)
@@ -392,6 +398,14 @@ def _creation(name):
                 from . import larray
                 return larray.full(tuple(shape), {"zeros": 0.0, "ones": 1.0, "empty": 0.0}[name], "float64" if dt is None else _np.dtype(dt).name)
             r = real(shape, *a, **k)
+        if dt is not None and name != "full":
+            try:
+                isf = _np.dtype(dt).kind == "f"
+            except TypeError:
+                isf = False
+            if isf and core.Ctx.cur is not None:
+                from . import fs
+                return fs.tag(r.astype(object), _np.dtype(dt).name)      # float arrays may receive symbolic entries later
         if dt is None and r.dtype == _np.float64 and name != "empty":
             return r.astype(object)  # may receive symbolic entries later
         if dt is None and name == "empty":
@@ -450,6 +464,7 @@ class NPX(types.ModuleType):
             "isnan": _ew1(lambda v: False, lambda v: v != v, "isnan"),
             "isfinite": _ew1(lambda v: True, math.isfinite, "isfinite"),
             "arctan2": _arctan2,
+            "tan": _ew1(_s_tan, math.tan, "tan"),
             "minimum": _minmax(True),
             "maximum": _minmax(False),
             "eye": _eye,
